@@ -105,13 +105,13 @@ fn recv_eof(closure: bool, with_md: bool, shape: u8) {
 th!(c18_q_recv_eof_complete, 12, { recv_eof(false, true, 1) });
 //# funcs=RecvTransaction::process_pdu(EoF) unacknowledged with closure,prepare_finished; bound=4-byte file completely held, closure on; stubs=S1,S2,S3,S5; nocover=incomplete at EOF
 th!(c18_q_recv_eof_complete_closure, 12, { recv_eof(true, true, 1) });
-//# funcs=RecvTransaction::process_pdu(EoF) unacknowledged,finalize_receive,verify_checksum; bound=head of the 4-byte file missing (held (2,4)), content+checksum symbolic: no complete delivery may be reported; stubs=S1,S2,S3,S5
+//# funcs=RecvTransaction::process_pdu(EoF) unacknowledged,finalize_receive,verify_checksum; bound=head of the 4-byte file missing (held (2,4)), content+checksum symbolic: no complete delivery may be reported; stubs=S1,S2,S3,S5; nocover=clean delivery
 th!(c18_q_recv_eof_head_missing, 12, { recv_eof(false, true, 3) });
-//# funcs=RecvTransaction::process_pdu(EoF) unacknowledged; bound=tail missing (held (0,2)), closure on; stubs=S1,S2,S3,S5
+//# funcs=RecvTransaction::process_pdu(EoF) unacknowledged; bound=tail missing (held (0,2)), closure on; stubs=S1,S2,S3,S5; nocover=clean delivery
 th!(c18_t_recv_eof_tail_missing_closure, 12, { recv_eof(true, true, 2) });
-//# funcs=RecvTransaction::process_pdu(EoF) unacknowledged; bound=metadata missing, nothing held (rule 7: with no metadata the by-value PDU makes symex walk the Metadata arm; > 8 min); stubs=S1,S2,S3,S5
-th!(c18_t_recv_eof_no_metadata, 12, { recv_eof(false, false, 0) });
-//# funcs=RecvTransaction::process_pdu(EoF) unacknowledged; bound=no data received at all for a 4-byte file, closure on; stubs=S1,S2,S3,S5
+//# funcs=RecvTransaction::process_pdu(EoF) unacknowledged,check_file_size,finalize_receive,shutdown; bound=metadata missing, nothing held, EOF for a 4-byte file; unwind 4 (rule 7: with no metadata the reinterpreted Metadata arm is walked too - at unwind 12 that did not finish, at 4 it takes 2 min and no real loop needs more); stubs=S1,S2,S3,S5; nocover=clean delivery
+th!(c18_q_recv_eof_no_metadata, 4, { recv_eof(false, false, 0) });
+//# funcs=RecvTransaction::process_pdu(EoF) unacknowledged; bound=no data received at all for a 4-byte file, closure on; stubs=S1,S2,S3,S5; nocover=clean delivery
 th!(c18_t_recv_eof_nothing_held, 12, { recv_eof(true, true, 0) });
 
 fn unack_sender(closure: bool, ch: &Chans) -> SendTransaction<ModelFs> {
